@@ -123,7 +123,8 @@ def final_reason(execs: List[Dict[str, Any]], restart_on=("ResourceExhausted",),
 
 # --------------------------------------------------------------------------- C02
 
-def c02_expected(nodes: Dict[str, Dict[str, Any]], script: Dict[str, Any]) -> Dict[str, Any]:
+def c02_expected(nodes: Dict[str, Dict[str, Any]], script: Dict[str, Any],
+                 override: Optional[Dict[str, str]] = None) -> Dict[str, Any]:
     """Rule-given final state of every node + whether some task exits unrecoverably.
     Repeating components are scripted to succeed (their engine reports Success when stopped)."""
     comps = script.get("components", {})
@@ -136,6 +137,10 @@ def c02_expected(nodes: Dict[str, Dict[str, Any]], script: Dict[str, Any]) -> Di
         preds = nd["preds"]
         ps = [rule[p] for p in preds]
         shut = False
+        if override and x in override:
+            rule[x] = override[x]
+            own_reason[x] = "override(known finding)"
+            continue
         if any(s == FAILED for s in ps):
             rule[x] = SHUTDOWN
             own_reason[x] = "never-ran(failed producer)"
@@ -168,10 +173,37 @@ def c02_expected(nodes: Dict[str, Dict[str, Any]], script: Dict[str, Any]) -> Di
     return {"rule": rule, "own_reason": own_reason, "unrecoverable": unrecoverable}
 
 
-def c02_judge(nodes: Dict[str, Dict[str, Any]], script: Dict[str, Any], result: Dict[str, Any],
-              n_stages: int) -> Tuple[List[Dict[str, Any]], Dict[str, int]]:
-    """Judges ONE terminated run (result of harness.run_scenario) against the documented rules."""
+def c02_running_observers_of_shutdown_subjects(nodes, script, result) -> Dict[str, str]:
+    """Known mechanism C02:running-observer-of-subject-that-shuts-down-ends-finished, decided structurally on
+    the recorded history: X is a repeating component, the rules give SHUTDOWN for X only because a same-stage
+    producer P ends SHUTDOWN, X had already been submitted (cs.run) when P received its final state, and X ended
+    FINISHED.  Returns {X: 'finished'}."""
     exp = c02_expected(nodes, script)
+    rule = exp["rule"]
+    evs = result["events"]
+    run_seq = {}
+    fin_seq = {}
+    for e in evs:
+        if e["kind"] == "cs.run":
+            run_seq.setdefault(e["comp"], e["seq"])
+        elif e["kind"] == "cs.finish" and e.get("final") == SHUTDOWN:
+            fin_seq.setdefault(e["comp"], e["seq"])
+    out = {}
+    states = {n: st for s in result["stages"] for n, st in s.get("states", {}).items()}
+    for x, nd in nodes.items():
+        if not nd.get("repeat") or rule.get(x) != SHUTDOWN or states.get(x) != FINISHED or x not in run_seq:
+            continue
+        same = [p for p in nd["preds"] if nodes[p]["stage"] == nd["stage"] and rule.get(p) == SHUTDOWN]
+        other_shut = [p for p in nd["preds"] if rule.get(p) in (SHUTDOWN, FAILED) and p not in same]
+        if same and not other_shut and all(p in fin_seq and fin_seq[p] > run_seq[x] for p in same):
+            out[x] = FINISHED
+    return out
+
+
+def c02_judge(nodes: Dict[str, Dict[str, Any]], script: Dict[str, Any], result: Dict[str, Any],
+              n_stages: int, override: Optional[Dict[str, str]] = None) -> Tuple[List[Dict[str, Any]], Dict[str, int]]:
+    """Judges ONE terminated run (result of harness.run_scenario) against the documented rules."""
+    exp = c02_expected(nodes, script, override)
     rule, unrec = exp["rule"], exp["unrecoverable"]
     viol: List[Dict[str, Any]] = []
     cnt = {"case_A_runs": 0, "case_B_runs": 0, "component_states_judged": 0, "stages_judged": 0,
